@@ -121,6 +121,28 @@ def cases(ctx, ncases):
                                 break
                         if problems:
                             break
+                # ---- a batch with fewer rows than n_neighbors (single-sample / streaming use)
+                if not problems:
+                    small = Q[: rng.choice([1, 2, 3])]
+                    del calls[:]
+                    t.index_.query = spy
+                    Xs = t.transform(small)
+                    t.index_.query = orig_query
+                    stats["transform_calls"] += 1
+                    i3, d3 = orig_query(small, k=nn, epsilon=eps)
+                    mr = model_rows(i3, d3)
+                    rows_s = csr_rows(Xs)
+                    if Xs.shape != (small.shape[0], n):
+                        problems.append("transform of %d rows returned shape %s" % (small.shape[0], Xs.shape))
+                    elif len(calls) != 1 or calls[0][0] != nn or calls[0][1] != eps:
+                        problems.append("transform of a %d-row batch queried the index with k=%r, epsilon=%r; configured n_neighbors=%r, search_epsilon=%r" %
+                                        (small.shape[0], calls[0][0] if calls else None, calls[0][1] if calls else None, nn, eps))
+                    elif mr is not None:
+                        for i, (nodup, want) in enumerate(mr):
+                            if nodup and rows_s[i] != want:
+                                problems.append("row %d of transform(%d-row batch) stores %d entries %s; index_.query(k=%d) returns %s" %
+                                                (i, small.shape[0], len(rows_s[i]), rows_s[i][:4], nn, want[:4]))
+                                break
                 # ---- fit_transform
                 if not problems:
                     graphs = []
